@@ -417,7 +417,7 @@ theorem get_cas_success {s s' : St} {t : Tid} {ev : Ev} {p g : Nat} {nx : Option
 
 /-- `get` decides to return a node only at a successful CAS on the head, and the node is the one the CAS expected. -/
 theorem get_result_only_by_cas {s s' : St} {t : Tid} {ev : Ev} {v : Int} (hs : step s t = some (s', ev))
-    (hpre : s.pc t ≠ .done [1, v]) (hpost : s'.pc t = .done [1, v]) :
+    (_hpre : s.pc t ≠ .done [1, v]) (hpost : s'.pc t = .done [1, v]) :
     ∃ p g nx, s.pc t = .getCas p g nx ∧ v = (p : Int) ∧ ev = evCasOk (some p) g nx (g + 1) := by
   unfold step at hs
   split at hs
